@@ -16,6 +16,9 @@ raises `rec.make_exc(op)` INSTEAD OF taking effect (a failed commit leaves the t
 a failed close leaves the handle open but counts as a close attempt).  With a symbolic fault
 number each counted call forks the path once: a scenario with N calls and one fault has N+1 paths.
 
+A counted call on a connection whose close() succeeded is recorded, counted in `calls_after_close` and raises the
+driver's "already closed" error (InterfaceError; ProgrammingError for SQLite) unless `rec.raise_on_closed` is off.
+
 Per connection the fake keeps what a check needs to state "released or closed exactly once, never
 used afterwards": `close_calls`, `closed`, `calls_after_close`, `in_tx` (transaction open),
 `n_created`, `pid_created`, and the recorder keeps `rec.connections` in creation order.
@@ -58,6 +61,7 @@ class Recorder(object):
         self.exc_factory = None
         self.responder = None
         self.clock = None
+        self.raise_on_closed = True
         self.compare = None           # optional hook deciding `fault number == call number` (see untraced())
         self.reset()
 
@@ -85,7 +89,12 @@ class Recorder(object):
         self.log.append(ev)
         if con is not None:
             con.calls += 1
-            if con.closed: con.calls_after_close += 1
+            if con.closed:
+                con.calls_after_close += 1
+                if self.raise_on_closed:      # what real drivers do ("connection already closed")
+                    self.natural_errors += 1
+                    raise con.rec_module_error('ProgrammingError' if con.tx_model == 'sqlite' else 'InterfaceError',
+                                               'connection already closed')
         if self.armed:
             for k in self.faults:
                 if (self.compare(k, n) if self.compare is not None else k == n):
